@@ -53,7 +53,14 @@
     * `+ - *` between numbers only; `e[i]` on text/list/tuple (negative indices as Python; `IndexError`) and dict
       (`KeyError`); `e[:n]`, `e[n:]` are the hand model's `Cache.sliceTo/sliceFrom` (Python's clamping rules);
     * `str.isalpha()/isalnum()` are ASCII-exact (`a-z A-Z`, and `0-9`), as the hand models of
-      `Tags.isValidAttributeName` are: Python's are Unicode-aware, so the tie is exact on ASCII names only (C08 says so).
+      `Tags.isValidAttributeName` are: Python's are Unicode-aware, so the tie is exact on ASCII names only (C08 says so);
+    * local lists and dicts (`SpecialAttributes.py`: `camelCaseToDashName`, `styleToDict`) change at statement level too:
+      `x.append(v)` / `x.remove(v)` as an expression statement (`Stmt.varCall`), `x[k] = v` (`Stmt.setItemVar`).  Such a value
+      has ONE name (guard `aliasOK`: it must come from an expression that creates it — a slice, `[]`, `{}`, `list(x)` when the
+      module has no function `list`, `text.split(sep)`), and `for` over a variable holding a list checks after every
+      iteration that the variable still holds the list it started with (else `Res.abort`): Python iterates over the live list;
+    * `list(x)`, `str.strip()` (all of `str.isspace()`, the shared `strip`), `str.split(c)` / `str.index(c)` for one character,
+      `str.isupper()` (ASCII), `sep.join(list of texts)`.
 -/
 import AHP.Model.Basic
 import AHP.Model.Conv
